@@ -32,9 +32,14 @@ def _fail(name, what, witness):
 
 # ---------------------------------------------------------------- predicates
 
+def _w(fr):
+    """(width, value) through the public API only (len() and as_integer): the contracts must not depend on how a frame stores
+    its bits."""
+    return len(fr), fr.as_integer
+
+
 def _frame_ok(fr):
-    d = fr._data
-    b = fr._bits
+    b, d = _w(fr)
     return isinstance(d, int) and isinstance(b, int) and b >= 1 and 0 <= d < (1 << b)
 
 
@@ -42,26 +47,26 @@ def frame_init_post(self):
     _count("Frame.__init__")
     if not _frame_ok(self):
         _fail("Frame.__init__", "frame constructed outside 0 <= value < 2**width",
-              {"bits": repr(self._bits), "data": repr(self._data)})
+              {"bits": repr(len(self)), "data": repr(self.as_integer)})
     return True
 
 
 def _bits_of(self):
-    return self._bits
+    return len(self)
 
 
 def frame_setitem_post(self, key, value, OLD):
     _count("Frame.__setitem__")
-    if self._bits != OLD.bits or not _frame_ok(self):
+    if len(self) != OLD.bits or not _frame_ok(self):
         _fail("Frame.__setitem__", "write left the frame outside its width or changed its width",
-              {"bits_before": OLD.bits, "bits": repr(self._bits), "data": repr(self._data),
+              {"bits_before": OLD.bits, "bits": repr(len(self)), "data": repr(self.as_integer),
                "key": repr(key), "value": repr(value)})
     return True
 
 
 def _lens_of(self, other):
     try:
-        return (self._bits, self._data, other._bits, other._data)
+        return _w(self) + _w(other)
     except Exception:
         return None
 
@@ -71,17 +76,16 @@ def frame_add_post(self, other, result, OLD):
     ok = _frame_ok(result)
     if OLD.pre is not None:
         sb, sd, ob, od = OLD.pre
-        ok = ok and result._bits == sb + ob and (self._bits, self._data) == (sb, sd) \
-            and (other._bits, other._data) == (ob, od)
+        ok = ok and len(result) == sb + ob and _w(self) == (sb, sd) and _w(other) == (ob, od)
     if not ok:
         _fail("Frame.__add__", "concatenation result has wrong width / operands changed",
-              {"pre": repr(OLD.pre), "result": (repr(result._bits), repr(result._data))})
+              {"pre": repr(OLD.pre), "result": repr(_w(result))})
     return True
 
 
 def _frame_state(f):
     try:
-        return (f._bits, f._data)
+        return _w(f)
     except Exception:
         return None
 
@@ -99,14 +103,14 @@ def response_init_post(self, val):
 def _wrap_setitem_raise(orig):
     @functools.wraps(orig)
     def setitem(self, key, value):
-        pre = (self._bits, self._data)
+        pre = _w(self)
         try:
             return orig(self, key, value)
         except BaseException:
             _count("Frame.__setitem__/raise")
-            if (self._bits, self._data) != pre:
+            if _w(self) != pre:
                 _fail("Frame.__setitem__/raise", "a rejected write modified the frame",
-                      {"pre": repr(pre), "post": repr((self._bits, self._data)),
+                      {"pre": repr(pre), "post": repr(_w(self)),
                        "key": repr(key), "value": repr(value)})
             raise
     return setitem
